@@ -129,7 +129,32 @@ MUTANTS = {
          "old": "            if obj._parent is not None:\n                obj._parent.remove(obj)\n            obj._parent = self\n",
          "new": "            if obj._parent is not None and not isinstance(obj, Collection):\n                obj._parent.remove(obj)\n            obj._parent = self\n"},
     ],
-    "C18": [],
+    "C18": [
+        {"name": "revert_fix_copy_finally", "kind": "revert", "commit": "395226b"},
+        {"name": "shallow_copy_for_leaves", "kind": "sub", "file": BG,
+         "old": "        else:\n            obj_copy = deepcopy(self)\n",
+         "new": "        else:\n            from copy import copy as shallow\n\n"
+                "            obj_copy = deepcopy(self) if hasattr(self, \"_children\") else shallow(self)\n"},
+        {"name": "kwargs_applied_to_original", "kind": "sub", "file": BG,
+         "old": "                setattr(obj_copy, k, v)\n",
+         "new": "                setattr(obj_copy if k != \"handedness\" else self, k, v)\n                setattr(obj_copy, k, v)\n"},
+        {"name": "initialised_style_shared", "kind": "sub", "file": BG,
+         "old": "            obj_copy.style.label = label\n",
+         "new": "            obj_copy.style.label = label\n            obj_copy.style.path = self.style.path\n"},
+        {"name": "position_array_shared", "kind": "sub", "file": BG,
+         "old": "        style_kwargs = {}\n        for k, v in kwargs.items():\n            if k.startswith(\"style\"):\n",
+         "new": "        obj_copy._position = self._position\n        style_kwargs = {}\n        for k, v in kwargs.items():\n"
+                "            if k.startswith(\"style\"):\n"},
+        {"name": "parent_kept_on_copy_of_nested_collection", "kind": "sub", "file": BG,
+         "old": "            try:\n                obj_copy = deepcopy(self)\n            finally:\n                self._parent = parent\n",
+         "new": "            try:\n                obj_copy = deepcopy(self)\n            finally:\n                self._parent = parent\n"
+                "            if getattr(parent, \"_parent\", None) is not None:\n                obj_copy._parent = parent\n"},
+        {"name": "trace_kwargs_shared", "kind": "sub", "file": BG,
+         "old": "            obj_copy.style.label = label\n",
+         "new": "            obj_copy.style.label = label\n"
+                "            for t_new, t_old in zip(obj_copy.style.model3d.data, self.style.model3d.data):\n"
+                "                t_new._kwargs = t_old._kwargs\n"},
+    ],
     "C20": [],
 }
 
